@@ -39,6 +39,9 @@ CHECKS = {
  "C05": dict(cat="proof", tech="machine-checked proof in Coq of order-obliviousness over a table of hash-container uses translated from the source on every run + cross-process differential",
    text="Partial. The only nondeterminism a Gallina model can express is modelled as an adversary choosing the iteration order of hash maps: 4 theorems - any client that only looks up / inserts / tests / removes computes the same results and equivalent maps for every adversary; the interner pattern (ordered vector + index map) assigns ids in first-seen order for every adversary; iteration exposes the adversary's choice (witness); and the proviso, re-checked against a table regenerated from the anchored Rust files on every run: every use of a HashMap/HashSet there is lookup-only or feeds an order-insensitive consumer. Independence of process identity, hash seeds and memory layout is established by compiling generated many-POU programs in 3 separate OS processes (bytes equal) and executing them in 2 (full storage dumps and runtime events equal).",
    note="Hash seeds, allocator layout and the OS are not modelled; the site scanner is syntactic and covers the anchored files only."),
+ "C09": dict(cat="proof", tech="machine-checked proof in Coq + extracted-model/implementation correspondence on restart / power-cycle histories",
+   text="11 Coq theorems about a model of the storage bookkeeping (globals, instance heap, instance ids resolved at build time, retain snapshot): a warm restart keeps exactly the RETAIN globals and program variables and re-initialises the rest; a cold restart yields the state of a newly built runtime (variables, instance ids, time, cycle counter, fault latch); after ANY history the instance id held by a binding is still the program's instance, so a binding reads the variable; a power cycle through the store preserves the same variables as a warm restart; the allocate-new-instances restart and the globals-only store are refuted by witnesses. Tied to runtime/restart.rs and retain_store.rs by generated qualifier x scope configurations and histories of cycles, external writes, cold/warm restarts, save + new runtime + load through FileRetainStore and faults, with all variables, %QW words, time and fault latch compared after every operation; an independent judge written from the property text checks the implementation's observations.",
+   note="Program execution is a parameter of the model; only INT variables and direct-address bindings are generated; the process image is treated as environment (a restart does not clear it)."),
 }
 REASON_TODO = "check not built yet (work in progress; see DESIGN.md §5 order of work)"
 NA = {}
